@@ -438,7 +438,8 @@ esl_gumbel_FitComplete(double *x, int n, double *ret_mu, double *ret_lambda)
       /* First bracket the root */
       left  = 0.;	                 	/* for sure */
       right = eslCONST_PI / sqrt(6.*variance);  /* an initial guess */
-      lawless416(x, n, lambda, &fx, &dfx);
+      if (! (right > 0.)) { status = eslENORESULT; goto FAILURE; } /* infinite or NaN variance: doubling 0 would never bracket (as in esl_gumbel_FitCensored) */
+      lawless416(x, n, right, &fx, &dfx);   /* bracket with f(right), as esl_gumbel_FitCensored() does (was: the stale Newton/Raphson lambda) */
       while (fx > 0.) 
 	{		
 	  right *= 2.;		/* arbitrary leap to the right */
